@@ -120,6 +120,87 @@ func init() {
 	}
 }
 
+// Zero-valued inputs as the very first operation: a cache, table or pool whose zero-initialised state happens to "match"
+// an all-zero key, IV or message only shows while that state is still untouched. Each op also repeats the zero input
+// after an unrelated one (the answer for the same input must not change within a process).
+func init() {
+	zeroKey, otherKey := make([]byte, 16), []byte("0123456789abcdef")
+	blk := func(key, in []byte, enc bool) ([]byte, error) {
+		b, err := sm4.NewCipher(key)
+		if err != nil {
+			return nil, err
+		}
+		out := make([]byte, 16)
+		if enc {
+			b.Encrypt(out, in)
+		} else {
+			b.Decrypt(out, in)
+		}
+		return out, nil
+	}
+	firstOps["C05"] = append(firstOps["C05"],
+		firstOp{"sm4.Encrypt(all-zero key)", func() string {
+			pt := bytes.Repeat([]byte{0x11}, 16)
+			want := ref.SM4EncryptBlock(zeroKey, pt, nil)
+			for step, k := range [][]byte{zeroKey, otherKey, zeroKey} {
+				got, err := blk(k, pt, true)
+				if w := ref.SM4EncryptBlock(k, pt, nil); err != nil || !bytes.Equal(got, w) {
+					return fmt.Sprintf("step %d (key %x) of [zero key, other key, zero key] from a fresh process: %v got %x want %x (zero-key ciphertext should be %x)", step, k, err, got, w, want)
+				}
+			}
+			return ""
+		}},
+		firstOp{"sm4.Decrypt(all-zero key, all-zero block)", func() string {
+			ct := make([]byte, 16)
+			got, err := blk(zeroKey, ct, false)
+			if w := ref.SM4DecryptBlock(zeroKey, ct, nil); err != nil || !bytes.Equal(got, w) {
+				return fmt.Sprintf("%v got %x want %x", err, got, w)
+			}
+			return ""
+		}})
+	type hf struct {
+		mode string
+		f    func(key, in []byte, enc bool) ([]byte, error)
+	}
+	for _, h := range []hf{{"ECB", sm4.Sm4Ecb}, {"CBC", sm4.Sm4Cbc}, {"CFB", sm4.Sm4CFB}, {"OFB", sm4.Sm4OFB}} {
+		h := h
+		firstOps["C11"] = append(firstOps["C11"], firstOp{"Sm4" + h.mode + "-encrypt(all-zero key)", func() string {
+			pt := []byte("zero key as the first key of the process")
+			iv := make([]byte, 16)
+			refEnc := func(k []byte) []byte {
+				padded := ref.PKCS7Pad(pt, 16)
+				switch h.mode {
+				case "ECB":
+					return ref.SM4ECB(k, padded, false)
+				case "CBC":
+					return ref.SM4CBC(k, iv, padded, false)
+				case "CFB":
+					return ref.SM4CFB(k, iv, padded, false)
+				}
+				return ref.SM4OFB(k, iv, padded)
+			}
+			for step, k := range [][]byte{zeroKey, otherKey, zeroKey} {
+				got, err := h.f(k, pt, true)
+				if w := refEnc(k); err != nil || !bytes.Equal(got, w) {
+					return fmt.Sprintf("%s, step %d (key %x) of [zero key, other key, zero key] from a fresh process: %v got %x want %x", h.mode, step, k, err, got, w)
+				}
+			}
+			return ""
+		}})
+	}
+	firstOps["C12"] = append(firstOps["C12"], firstOp{"GCMEncrypt(all-zero key, all-zero IV, empty AAD)", func() string {
+		iv, p := make([]byte, 12), make([]byte, 20)
+		for step, k := range [][]byte{zeroKey, otherKey, zeroKey} {
+			wc, wt, _ := ref.SM4GCMSeal(k, iv, p, nil)
+			c, tg := sm4.GCMEncrypt(k, iv, p, nil)
+			if !bytes.Equal(c, wc) || !bytes.Equal(tg, wt) {
+				return fmt.Sprintf("step %d (key %x): ciphertext %x tag %x, want %x / %x", step, k, c, tg, wc, wt)
+			}
+		}
+		return ""
+	}})
+}
+
 func firstHelper(mode string, f func(key, in []byte, enc bool) ([]byte, error)) string {
 	key, pt := []byte("0123456789abcdef"), []byte("twenty-three bytes here")
 	iv := make([]byte, 16) // the package's default IV
